@@ -89,7 +89,8 @@ def scope(tier, seed):
                     'until-expansion; all ordered pairs of a 16-formula pool',
             'routes': 'CTL fragment size<=1 (140+4 formulas) x 6 routes; LTL A g with g of size<=1 x 6 '
                       'routes; CTL-and-LTL fragment x 9 routes; parser=None on a 1/8 slice',
-            'structures': 'all 148 labelled K(<=2); K(3,{p}) representatives for the laws'}
+            'structures': 'all 148 labelled K(<=2); K(3,{p}) representatives for the laws and for CTL vs CTL* vs '
+                          'LTL route agreement on CTL-shaped formulas'}
 
 
 def plan(tier, seed):
@@ -100,6 +101,8 @@ def plan(tier, seed):
         sh.append(['routes', lo, hi])
     for lo, hi in chunks(504, 12 if tier == 'quick' else 6):
         sh.append(['laws3', lo, hi])
+    for lo, hi in chunks(504, 12):
+        sh.append(['routes3', lo, hi])
     return sh
 
 
@@ -284,6 +287,33 @@ def run_shard(shard, tier, seed, acc):
                 acc.violation('structure-modified', kcase(k))
             acc.sample({'k': k.to_json(), 'kind': kind})
         return
+    if kind == 'routes3':
+        # CTL-shaped formulas over {p} on the 3-state representatives through the CTL and the CTL*
+        # checker (object and text): the CTL* checker works on a relabelled clone
+        forms = [f for s_ in (0, 1) for f in spaces.ctl_by_size(s_, (P,))] + \
+                [f for f in spaces.ctl_by_size(2, (P,))][(seed % 7)::7]
+        for ki, k in enumerate(spaces.kripke_reps(3, ('p',))[shard[1]:shard[2]]):
+            if tier == 'quick' and (shard[1] + ki) % 2 != seed % 2:
+                continue
+            if deadline_passed():
+                acc.capped()
+                return
+            Kl = lib.to_kripke(k)
+            mc = MC(k, Kl, acc)
+            S = frozenset(range(k.n))
+            for f in forms:
+                a = mc('CTL', f)
+                b = mc('CTLS', f)
+                c = mc('CTLS', f, 'CTL')
+                acc.ev(3, 1 if (a[0] == 'set' and 0 < len(a[1]) < 3) else 0)
+                for name, r in (('CTLS<-CTLS obj', b), ('CTLS<-CTL obj', c)):
+                    if a[0] != 'set' or r[0] != 'set' or frozenset(a[1]) != frozenset(r[1]):
+                        acc.violation('routes-disagree', kcase(k, f, route=name, other='CTL<-CTL obj'), a, r)
+                if members.ltl_state(f):
+                    d = mc('LTL', f)
+                    if d[0] != 'set' or a[0] != 'set' or frozenset(a[1]) != frozenset(d[1]):
+                        acc.violation('routes-disagree', kcase(k, f, route='LTL<-LTL obj', other='CTL<-CTL obj'), a, d)
+        return
     if kind == 'laws3':
         for k in spaces.kripke_reps(3, ('p',))[shard[1]:shard[2]]:
             if deadline_passed():
@@ -307,7 +337,16 @@ def replay(art):
     Kl = lib.to_kripke(k)
     mc = MC(k, Kl, acc)
     if art['kind'] in ('routes-disagree', 'route-exception'):
-        routes(mc, acc, k, True)
+        if k.n <= 2:
+            routes(mc, acc, k, True)
+        else:
+            f = spaces.from_jsonable(c['f'])
+            a, b, c2 = mc('CTL', f), mc('CTLS', f), mc('CTLS', f, 'CTL')
+            bad = not (a[0] == b[0] == c2[0] == 'set' and frozenset(a[1]) == frozenset(b[1]) == frozenset(c2[1]))
+            if members.ltl_state(f):
+                d = mc('LTL', f)
+                bad = bad or d[0] != 'set' or frozenset(d[1]) != frozenset(a[1])
+            return {'violates': bad, 'results': [a, b, c2]}
     else:
         if k.n <= 2:
             laws_for(mc, 'CTL', CTL_POOL, acc, k)
